@@ -98,7 +98,7 @@ package db
 // issuer's current artifact (private key, subject-public-key bits, and its certificate's SUBJECT as issuer DN), or
 // the entity's own for roots; the new artifact carries the signed certificate, the context's key and the stored request.
 //@ func GenerateArtifacts returns (art, err)
-//@   props C01 C14 C20 C10
+//@   props C01 C14 C20 C10 C19
 //@   uses db.smt2 x509.smt2 keys.smt2
 //@   let S = DbState(backend)
 //@   let CFG = typed(dbCfg(S, alias), "*gopki/generator/config.CertificateContent")
@@ -107,7 +107,8 @@ package db
 //@   let CTX = typed(callres("gopki/generator.BuildCertBody", 1, 0), "*gopki/generator/cert.CertificateContext")
 //@   let SIGN = "gopki/generator.SignCertBody"
 //@   atcall @C01 gopki/generator.SignCertBody CFG.Issuer != "" ==> CTX.Issuer.IssuerDn == old(IART.Certificate.TBSCertificate.Subject) && CTX.Issuer.PublicKeyRaw == old(IART.Certificate.TBSCertificate.PublicKey.PublicKey.Bytes) && CTX.Issuer.PrivateKey == old(IART.PrivateKey)
-//@   atcall @C01 gopki/generator.SignCertBody CFG.Issuer == "" ==> CTX.Issuer.IssuerDn == CTX.TbsCertificate.Subject && CTX.Issuer.PublicKeyRaw == CTX.TbsCertificate.PublicKey.PublicKey.Bytes && CTX.Issuer.PrivateKey == CTX.PrivateKey
+// (C19: the self-signed issuer context is taken after the manipulations, so a hashed key identifier follows manipulated key bits)
+//@   atcall @C01,C19 gopki/generator.SignCertBody CFG.Issuer == "" ==> CTX.Issuer.IssuerDn == CTX.TbsCertificate.Subject && CTX.Issuer.PublicKeyRaw == CTX.TbsCertificate.PublicKey.PublicKey.Bytes && CTX.Issuer.PrivateKey == CTX.PrivateKey
 //@   atcall @C14 gopki/generator.BuildCertBody dbArt(S, alias) != 0 ==> prk == old(SART.PrivateKey) && req == old(SART.Request)
 //@   atcall @C14 gopki/generator.BuildCertBody dbArt(S, alias) == 0 ==> prk == nil && req == nil
 //@   ensures !called("gopki/generator.SignCertBody", 1) ==> err != nil
